@@ -224,12 +224,8 @@ func (r *runner) doAppend(v []byte) (ok bool) {
 		}()
 		// the prediction is given the tree's own append path, as a caller holding the tree would do; it is a
 		// pure function of its arguments, so the path (and with it the live tree) must come back unchanged
-		live := r.tr.AppendPath()
-		before := copyList(live)
-		pred = rmt.CalculateRootFromAppendPath(v, live, oldSize)
-		if !eqList(before, live) || !eqList(before, r.tr.AppendPath()) {
-			r.fail("predict-mutated-append-path", fmt.Sprintf("CalculateRootFromAppendPath at size %d changed the append path it was given: %s -> %s", oldSize, hexList(before), hexList(r.tr.AppendPath())))
-		}
+		// (corr.PureCall, pure.go: arguments and the tree's path compared before / after, second call, clone)
+		pred = r.purePredict(v, r.tr.AppendPath(), oldSize, r.tr.AppendPath)
 	}()
 	if err := r.tr.Append(v); err != nil {
 		r.fail("append-error", fmt.Sprintf("size %d: %v", oldSize, err))
@@ -461,7 +457,7 @@ func (r *runner) step(op string) string {
 		}
 		return "ok " + r.triple() + " acc=" + corr.Hex(acc.Sum(nil))
 	case "batchroot":
-		got := rmt.CalculateRoot(copyList(r.data))
+		got := r.pureBatchRoot(copyList(r.data))
 		if want := refRoot(r.hashes); !bytes.Equal(got, want) {
 			r.fail("batch-root-not-lip31", fmt.Sprintf("size %d: CalculateRoot %x, reference %x", len(r.data), got, want))
 		}
@@ -474,12 +470,7 @@ func (r *runner) step(op string) string {
 		if len(w) > 1 {
 			v = corr.UnHex(w[1])
 		}
-		livePath := r.tr.AppendPath()
-		pathBefore := copyList(livePath)
-		pred := rmt.CalculateRootFromAppendPath(v, livePath, r.tr.Size())
-		if !eqList(pathBefore, r.tr.AppendPath()) {
-			r.fail("predict-mutated-append-path", fmt.Sprintf("CalculateRootFromAppendPath at size %d changed the append path it was given: %s -> %s", r.tr.Size(), hexList(pathBefore), hexList(r.tr.AppendPath())))
-		}
+		pred := r.purePredict(v, r.tr.AppendPath(), r.tr.Size(), r.tr.AppendPath)
 		hs := append(append([][]byte{}, r.hashes...), refLeaf(v))
 		c := newRefCache()
 		if want := c.root(hs, 0, len(hs)); !bytes.Equal(want, pred.Root) {
@@ -523,7 +514,7 @@ func (r *runner) step(op string) string {
 			mode = w[1]
 		}
 		q, p, root, mustReject := tamper(mode, r.lastQ, r.lastP, r.tr.Root())
-		got := rmt.VerifyProof(q, p, root)
+		got := r.pureVerifyProof("verify "+mode, q, p, root)
 		wf := r.lastWF
 		if mode == "ok" && wf && !got {
 			r.fail("generated-proof-rejected", fmt.Sprintf("size %d idxs %s", r.lastP.Size, uintList(r.lastP.Idxs)))
@@ -538,7 +529,7 @@ func (r *runner) step(op string) string {
 				return "noproof"
 			}
 			upd := unHexList(w[1])
-			got, err := rmt.CalculateRootFromUpdateData(copyList(upd), r.lastP)
+			got, err := r.pureUpdateData("updproof", copyList(upd), r.lastP)
 			wf := r.lastWF && len(upd) == len(r.lastP.Idxs)
 			for _, idx := range r.lastP.Idxs {
 				wf = wf && idx != 0
@@ -621,11 +612,11 @@ func (r *runner) step(op string) string {
 			return "w=" + hexList(wit)
 		}
 		partial := newRefCache().peaks(r.hashes[:i])
-		got := rmt.CalculateRootFromRightWitness(uint64(i), copyList(partial), copyList(wit))
+		got := r.pureRootFromRightWitness(uint64(i), copyList(partial), copyList(wit))
 		if !bytes.Equal(got, r.tr.Root()) {
 			r.fail("right-witness-root-differs", fmt.Sprintf("size %d index %d: %x, tree root %x", len(r.hashes), i, got, r.tr.Root()))
 		}
-		if !rmt.VerifyRightWitness(uint64(i), copyList(partial), copyList(wit), r.tr.Root()) {
+		if !r.pureVerifyRightWitness(uint64(i), copyList(partial), copyList(wit), r.tr.Root()) {
 			r.fail("right-witness-rejected", fmt.Sprintf("size %d index %d", len(r.hashes), i))
 		}
 		if rmt.VerifyRightWitness(uint64(i), copyList(partial), copyList(wit), flip(r.tr.Root())) {
